@@ -112,7 +112,66 @@ fn run_isect(case: &Value, tag: usize, rep: &mut Report, mb: &mut ModelBatch) {
     rep.sample(json!({"kind": "isect", "pairs": case["pairs"]}));
 }
 
+/// patternProperties against the other operand's additionalProperties (both orders of an allOf, and sibling
+/// keywords): sub-schemas and values come from a tiny fragment whose validity is computed here, so the family needs
+/// no regex matching in the reference (a key matches the pattern `^p` iff it starts with `p`)
+fn run_patprops(case: &Value, rep: &mut Report) {
+    let mut rng = Rng::new(case["seed"].as_u64().unwrap_or(1));
+    let simple = [json!({"type":"integer"}), json!({"type":"string"}), json!({"type":"boolean"}), json!(false), json!(true)];
+    let sat = |s: &Value, v: &Value| -> bool {
+        match s { Value::Bool(b) => *b, _ => match s["type"].as_str() { Some("integer") => v.is_i64(), Some("string") => v.is_string(), Some("boolean") => v.is_boolean(), _ => true } }
+    };
+    let sb = vocab::single_byte_words();
+    let eos = sb.len() as u32 - 1;
+    let Ok(w) = World::new(sb, eos, false, None) else { rep.skip("world"); return; };
+    for _round in 0..case["rounds"].as_u64().unwrap_or(6) {
+        let (sa, sp, sprop) = (rng.pick(&simple).clone(), rng.pick(&simple[..3]).clone(), rng.pick(&simple[..3]).clone());
+        let prefix = ["x", "x-", "ab"][rng.below(3)];
+        let pat = format!("^{prefix}");
+        let shape = rng.below(4);
+        // the two operands: L restricts additional properties (and may name one), R has the pattern
+        let l = if shape == 3 { json!({"properties": {"id": sprop.clone()}, "additionalProperties": sa.clone()}) } else { json!({"additionalProperties": sa.clone()}) };
+        let r = json!({"patternProperties": {pat.clone(): sp.clone()}});
+        let schema = match shape {
+            0 => json!({"type": "object", "allOf": [l, r]}),
+            1 => json!({"type": "object", "allOf": [r, l]}),
+            2 => { let mut o = l.clone(); o["type"] = json!("object"); o["allOf"] = json!([r]); o }
+            _ => { let mut o = l.clone(); o["type"] = json!("object"); o["allOf"] = json!([r]); o }
+        };
+        rep.count(&format!("case.patprops.shape={shape}"));
+        let g = Gram::Json(schema.clone());
+        let base = w.matcher(&g);
+        if base.is_error() { rep.skip(&format!("compile-error:{}", crate::eng::err_class(&base.get_error().unwrap_or_default()).chars().take(40).collect::<String>())); continue; }
+        let values = [json!(1), json!("s"), json!(true)];
+        let keys = [format!("{prefix}1"), format!("{prefix}note"), "other".to_string(), "id".to_string()];
+        for key in &keys {
+            for v in &values {
+                rep.evaluations += 1;
+                // Draft 2020-12: under L the key is an additional property unless L names it; under R it is constrained iff it matches
+                let named_by_l = shape == 3 && key == "id";
+                let ok_l = if named_by_l { sat(&sprop, v) } else { sat(&sa, v) };
+                let ok_r = if key.starts_with(prefix) { sat(&sp, v) } else { true };
+                let valid = ok_l && ok_r;
+                let mut o = serde_json::Map::new();
+                o.insert(key.clone(), v.clone());
+                let text = serde_json::to_string(&Value::Object(o)).unwrap();
+                let toks: Vec<u32> = text.bytes().map(|b| b as u32).collect();
+                let res = crate::c07::feed(&w, &g, &toks);
+                rep.count(if valid { "patprops.instances.valid" } else { "patprops.instances.invalid" });
+                if res.is_ok() != valid {
+                    rep.fail("oracle", if valid { "c06:patprops-valid-refused" } else { "c06:patprops-invalid-admitted" }, format!("instance {text} is {} under the schema, the engine {}", if valid { "valid" } else { "invalid" }, match &res { Ok(()) => "admits it".to_string(), Err(e) => format!("refuses it ({e})") }), json!({"schema": schema, "instance": text}));
+                    return;
+                }
+            }
+        }
+        rep.nontrivial(schema.to_string());
+    }
+}
+
 pub fn gen_case(rng: &mut Rng, idx: usize, thorough: bool) -> Value {
+    if idx % 10 == 7 {
+        return json!({"kind": "patprops", "seed": rng.next() % 1_000_000_000, "rounds": if thorough { 20 } else { 6 }});
+    }
     if idx % 5 == 4 {
         return json!({"kind": "isect", "seed": rng.next() % 1_000_000_000, "pairs": if thorough { 120 } else { 40 }});
     }
@@ -251,6 +310,7 @@ fn directed_negatives(ctx: &Ctx, schema: &Value, g: &Gram, named: &[String], rng
 
 pub fn run_case(ctx: &Ctx, case: &Value, tag: usize, rep: &mut Report, mb: &mut ModelBatch) {
     if case["kind"] == "isect" { run_isect(case, tag, rep, mb); return; }
+    if case["kind"] == "patprops" { run_patprops(case, rep); return; }
     let schema = &case["schema"];
     let mut rng = Rng::new(case["seed"].as_u64().unwrap_or(1));
     let g = Gram::Json(schema.clone());
